@@ -548,7 +548,6 @@ Inductive wl_pc :=
 | LLockB (h : hold)  (* c.bwLck.Lock(), holding h's Ctx.lck *)
 | LWrite (h : hold)  (* fr.WriteTo(c.bw) / c.bw.Flush() under bwLck *)
 | LRefill            (* sendPending -> refillPending: pb.stream.Read(buf), the caller's code *)
-| LSelfOut           (* sendPending -> cancelStream -> writeOut, on the write loop itself *)
 | LT0                (* writeLoop: c.setLastErr(lastErr); about to call c.Close() *)
 | LClose (c : close_pc)
 | LT2                (* for _, ctx := range c.takeAllReqs() { ctx.resolve(lastErr) } *)
@@ -632,7 +631,7 @@ Inductive act :=
 | LGoAcqX | LAcqX | LAcqXFail
 | LGoLockB (h : hold) (* h = HO: another request's Ctx.lck is taken on the way *)
 | LGoAwayRace | LLock | LWriteOk | LWriteFail (hdr : bool)
-| LGoRefill | LGoSelfOut | LSelfOutSend | LSelfOutDone
+| LGoRefill
 | LIterEnd | LIterErr
 | LSetErr
 | LT2Take | LT3InX | LT3InO | LT3Out | LT3End
@@ -725,9 +724,7 @@ Definition guard (a : act) (s : state) : Prop :=
   | LWriteOk => (exists h, wl s = LWrite h) /\ stalled s = false /\ dead s = false
   | LGoAwayRace => wl s = LLockB HX
   | LWriteFail _ => (exists h, wl s = LWrite h) /\ dead s = true
-  | LGoRefill | LGoSelfOut => wl s = LIter /\ 0 < bud s /\ xloc s <> XWl
-  | LSelfOutSend => wl s = LSelfOut /\ outq s < cap
-  | LSelfOutDone => wl s = LSelfOut /\ done s = true
+  | LGoRefill => wl s = LIter /\ 0 < bud s /\ xloc s <> XWl
   | LIterEnd | LIterErr => wl s = LIter /\ xloc s <> XWl
   | LSetErr => wl s = LT0
   | LT2Take => wl s = LT2
@@ -779,8 +776,9 @@ Definition eff (a : act) (s : state) : state :=
   | ETick => s <| tick := true |>
   (* roundTripOnce: ctx.timer.Reset(cl.opts.MaxResponseTime) elapses -> fireTimeout *)
   | ETimerFire => s <| tx := TRes |>
-  (* refillPending returned: more data, EOF, or an error.  sendPending on an error:
-     deletePending, cancelStream (a unit of its own below), takeReq, markFinished, resolve *)
+  (* refillPending returned: more data, EOF, or an error.  sendPending on an error: deletePending;
+     if c.takeReq(id): markFinished, resolve, and writeReset = writeFrame under bwLck (a socket
+     write like the others: LGoLockB HNone) -- the write loop never sends on c.out *)
   | EBodyRead xfail =>
       (match xfail, xloc s with
        | true, XTab => resolveX s <| xloc := XGone |> <| xpend := false |>
@@ -868,10 +866,6 @@ Definition eff (a : act) (s : state) : state :=
                      <| lx := LxNone |> <| wl := LIter |>
   (* sendPending: c.refillPending(pb) -> pb.stream.Read(buf), sendLck released first *)
   | LGoRefill => s <| bud := pred (bud s) |> <| wl := LRefill |>
-  (* sendPending, refill failed: c.cancelStream(id, InternalError) -> writeOut, on the write loop *)
-  | LGoSelfOut => s <| bud := pred (bud s) |> <| wl := LSelfOut |>
-  | LSelfOutSend => s <| outq := S (outq s) |> <| wl := LIter |>
-  | LSelfOutDone => s <| wl := LIter |>
   (* the iteration ends: back to the select ... *)
   | LIterEnd => s <| wl := LSel |>
   (* ... or runWriteLoop returns: ErrTimeout (3 pings unanswered), a recovered panic *)
@@ -947,8 +941,8 @@ Definition init (s : state) : Prop :=
 
 Definition reachable : state -> Prop := reach guard eff init.
 
-(* -- fairness groups: one per goroutine (Conn.Close belongs to whoever runs it), the done case of
-   the write loop's select, and the caller's body reader -- *)
+(* -- fairness groups: one per goroutine (Conn.Close belongs to whoever runs it), the done case and
+   the c.out case of the write loop's select, and the caller's body reader -- *)
 Definition g_x (a : act) : Prop :=
   match a with
   | KSend | KSeeDone | KCheckDone | KCheckOpen | KLockChk | KResolve | KRecv | KTakeBack => True
@@ -966,7 +960,7 @@ Definition g_wl (a : act) : Prop :=
   match a with
   | LSelDone | LSelInX _ | LSelInO _ | LSelOut _ | LSelWin _ | LSelTick _ | LRejectX | LGoAcqX
   | LAcqX | LAcqXFail | LGoLockB _ | LGoAwayRace | LLock | LWriteOk | LWriteFail _ | LGoRefill
-  | LGoSelfOut | LSelfOutSend | LSelfOutDone | LIterEnd | LIterErr | LSetErr | LT2Take | LT3InX
+  | LIterEnd | LIterErr | LSetErr | LT2Take | LT3InX
   | LT3InO | LT3Out | LT3End => True
   | a => g_close 0 a
   end.
@@ -980,10 +974,11 @@ Definition g_rl (a : act) : Prop :=
 Definition g_uc (a : act) : Prop := g_close 2 a.
 Definition g_seldone (a : act) : Prop := match a with LSelDone => True | _ => False end.
 Definition g_body (a : act) : Prop := match a with EBodyRead _ => True | _ => False end.
+Definition g_selout (a : act) : Prop := match a with LSelOut _ => True | _ => False end.
 
 Definition fair_run (r : run guard eff) : Prop :=
   sfair g_x r /\ sfair g_o r /\ sfair g_t r /\ sfair g_wl r /\ sfair g_rl r /\ sfair g_uc r /\
-  sfair g_seldone r /\ sfair g_body r.
+  sfair g_seldone r /\ sfair g_body r /\ sfair g_selout r.
 
 (* -- vocabulary -- *)
 (* X's caller has received from ctx.Err *)
@@ -1012,12 +1007,13 @@ Definition holds (s : state) (p : nat) (m : nat) : Prop :=
   | _ => False
   end.
 
-(* parked on a send into c.out (writeOut): 0 the write loop itself (cancelStream in sendPending),
-   1 the read loop (readNext's replies; dispatch's c.outBuf after dispatchLocked has returned) *)
+(* parked on a send into c.out (writeOut): 1 the read loop (readNext's replies; dispatch's c.outBuf
+   after dispatchLocked has returned), 4 X's timer (cancel -> cancelStream).  Not the write loop:
+   it writes its own RST_STREAM (writeReset). *)
 Definition parked_on_out (s : state) (p : nat) : Prop :=
   match p with
-  | 0 => wl s = LSelfOut
   | 1 => rl s = ROut \/ exists k st, rl s = RPostW k st
+  | 4 => tx s = TOut
   | _ => False
   end.
 End Sem.
